@@ -17,7 +17,9 @@ hash=$( { cd "$REPO" && find leveldb go.mod go.sum -type f \( -name '*.go' -o -n
 BIN=$CACHE/sim-$hash.test
 if [ -x "$BIN" ]; then echo "$BIN"; exit 0; fi
 
-exec 9>"$CACHE/build.lock"
+# one lock per binary: builds of different trees (scratch worktrees) proceed in
+# parallel, concurrent checks of the same tree build it once
+exec 9>"$CACHE/build-$hash.lock"
 flock 9 || fail "cannot lock"
 if [ -x "$BIN" ]; then echo "$BIN"; exit 0; fi
 
@@ -27,9 +29,12 @@ mkdir -p "$SCR/repo"
 ( cd "$REPO" && tar --exclude=.git -cf - . ) | tar -xf - -C "$SCR/repo" || fail "copy of $REPO failed"
 
 YG=$CACHE/yieldgen
-if [ ! -x "$YG" ] || [ -n "$(find $VERIF/yieldgen -newer "$YG" -name '*.go')" ]; then
-  ( cd $VERIF/yieldgen && $GO build -o "$YG" . ) >&2 || fail "cannot build yieldgen"
-fi
+(
+  flock 8 || exit 1
+  if [ ! -x "$YG" ] || [ -n "$(find $VERIF/yieldgen -newer "$YG" -name '*.go')" ]; then
+    ( cd $VERIF/yieldgen && $GO build -o "$YG.tmp" . && mv "$YG.tmp" "$YG" ) >&2 || exit 1
+  fi
+) 8>"$CACHE/yieldgen.lock" || fail "cannot build yieldgen"
 ( cd "$SCR/repo" && "$YG" -root "$SCR/repo" ) >&2 || fail "instrumenter rejected the tree"
 cat >> "$SCR/repo/go.mod" <<EOF
 
@@ -41,6 +46,7 @@ sed -e "s#^replace github.com/syndtr/goleveldb => .*#replace github.com/syndtr/g
 cp $VERIF/harness/go.sum "$SCR/harness.sum" 2>/dev/null || cp "$REPO/go.sum" "$SCR/harness.sum"
 ( cd $VERIF/harness && $GO test -c -modfile="$SCR/harness.mod" -o "$BIN.tmp" ./sim ) >&2 || fail "harness does not compile against the instrumented tree"
 mv "$BIN.tmp" "$BIN"
+rm -f "$CACHE/build-$hash.lock"
 # keep the six newest binaries, and never remove one younger than two hours
 # (a long-running check may still be using it)
 ls -t $CACHE/sim-*.test 2>/dev/null | tail -n +7 | while read f; do
